@@ -1,12 +1,14 @@
 import MoneroModel.Proofs.Group
 import MoneroModel.Proofs.GroupInstance
 import MoneroModel.Proofs.EdwardsLawful
+import MoneroModel.Proofs.ScanRecover
+import MoneroModel.Proofs.GroupRefine
 /-! C09 — "Recovered one-time secret key matches the output's one-time public key".
 About the model `Monero.recoverKey` (Model/Crypto.lean: `KeyRecoverer::{new, recover}` with `get_spend_secret_key`) and
 the by-the-book sender `Spec.Sender`. For every additive commutative group and every lawful `ops` (Proofs/Group.lean).
 Wallet: view secret `v`, spend secret `s`, spend public key `S = s•G`. -/
 namespace C09
-open Monero
+open Monero Monero.Scan
 variable {P : Type} [AddCommGroup P] {ops : CryptoOps P}
 
 /-- the hypotheses are satisfiable -/
@@ -65,6 +67,83 @@ theorem C09_recover_pub_subaddress (L : Lawful ops) (v s r : ℕ) (S : P) (hS : 
 theorem C09_recover_reduced (L : Lawful ops) (v s : ℕ) (R : P) (n i j : ℕ) : recoverKey ops v s R n i j < ops.l :=
   Nat.mod_lt _ L.l_pos
 
+/-! ### clause (a): every output REPORTED AS OWNED by the scan, through `OwnedTxOut::recover_key`
+
+`Owned.recoverKey` (Model/ScanRecover.lean) is the model of `OwnedTxOut::recover_key`: the reported output's own `tx_pubkey`,
+`index` and `sub_index` go into `KeyRecoverer::{new, recover}`. The scan is the model of Model/Scan.lean (C07). -/
+
+/-- the hypotheses of `C09_owned_recover` are satisfiable with a NON-EMPTY result: in the one-element lawful group
+(`unitOps`, Proofs/ScanRecover.lean) a one-output transaction is scanned to `Ok` of one owned output -/
+example : Lawful unitOps ∧ (PUnit.unit : PUnit) = 5 • unitOps.base ∧
+    ∃ ws, checkOutputsPrefix unitOps (fun _ => none) unitPrefix 1 PUnit.unit 0 1 0 1 none = .ok ws ∧ ws.length = 1 :=
+  ⟨unitOps_lawful, rfl, unitScan_ok⟩
+
+/-- **Clause (a).** For EVERY output `w` the scan reports as owned by the wallet `(v, S = s•G)` — whatever the transaction,
+whichever key matched (main or additional, with or without a torsion component), at every position and subaddress index in
+the scanned ranges — `OwnedTxOut::recover_key` returns (no panic of `PublicKey::point()`) a scalar `x` such that
+`PublicKey::from_private_key(x)` (`pubOf`) is that output's one-time public key (`TxOutTarget::as_one_time_key`);
+`x` is reduced, and it is `recoverKey` applied to the reported output's own key, position and index (so `C09_recover_value`
+gives its value). -/
+theorem C09_owned_recover (L : Lawful ops) (decP : Bytes → Option P) (p : Prefix) (v s : ℕ) (S : P)
+    (hS : S = s • ops.base) (a b c d : ℕ) (base : Option Base) (ws : List Owned)
+    (h : checkOutputsPrefix ops decP p v S a b c d base = .ok ws) :
+    ∀ w ∈ ws, ∃ x Pi R, Owned.recoverKey ops w v s = some x ∧ asOneTimeKey ops w.out.target = some Pi ∧
+      ops.dec w.txKey = some R ∧ x = recoverKey ops v s R w.index w.sub.1 w.sub.2 ∧
+      pubOf ops x = Pi ∧ x • ops.base = Pi ∧ x < ops.l := by
+  intro w hw
+  obtain ⟨_, _, _, hA⟩ := reported_addressed L decP p v S a b c d base ws h w hw
+  exact owned_recover_of_addressed L v s S hS w hA
+
+/-- the same for `Transaction::check_outputs` and for `check_outputs_with` a checker built by `SubKeyChecker::new` (on the
+prefix and on the transaction): all four entry points run the same pipeline -/
+theorem C09_owned_recover_all_apis (L : Lawful ops) (decP : Bytes → Option P) (t : Tx) (v s : ℕ) (S : P)
+    (hS : S = s • ops.base) (a b c d : ℕ) (ws : List Owned)
+    (h : checkOutputsTx ops decP t v S a b c d = .ok ws ∨
+         checkOutputsTxWith ops decP t (Checker.new ops v S a b c d) = .ok ws ∨
+         checkOutputsWith ops decP t.pre (Checker.new ops v S a b c d) t.base = .ok ws) :
+    ∀ w ∈ ws, ∃ x Pi, Owned.recoverKey ops w v s = some x ∧ asOneTimeKey ops w.out.target = some Pi ∧
+      pubOf ops x = Pi ∧ x < ops.l := by
+  have h' : checkOutputsPrefix ops decP t.pre v S a b c d t.base = .ok ws := by
+    rcases h with h | h | h <;> exact h
+  intro w hw
+  obtain ⟨x, Pi, _, h1, h2, _, _, h5, _, h7⟩ := C09_owned_recover L decP t.pre v s S hS a b c d t.base ws h' w hw
+  exact ⟨x, Pi, h1, h2, h5, h7⟩
+
+omit [AddCommGroup P] in
+/-- `KeyRecoverer` is a two-step object (`new` computes `checker.rv` with `KeyGenerator::from_key`, then any number of
+`recover` calls read it): each call, and any sequence of calls on ONE object, returns `recoverKey` of its own arguments —
+the object has no other state. (`Recoverer`, Model/ScanRecover.lean.) -/
+theorem C09_recoverer_object (v s : ℕ) (R : P) :
+    (∀ n i j, (Recoverer.new ops v s R).recover ops n i j = recoverKey ops v s R n i j) ∧
+    (∀ qs : List (ℕ × ℕ × ℕ), (Recoverer.new ops v s R).recoverAll ops qs
+        = qs.map fun q => recoverKey ops v s R q.1 q.2.1 q.2.2) :=
+  ⟨fun n i j => recoverer_recover v s R n i j, fun qs => recoverer_recoverAll v s R qs⟩
+
+/-- hypotheses of `C09_recover_value_bounded` are satisfiable -/
+example : (3 : ℕ) < 2 ^ 32 ∧ (70000 : ℕ) < 2 ^ 64 ∧ (5 : ℕ) < 2 ^ 256 := by decide
+
+/-- `C09_recover_value` on the REAL domain (`Index { major, minor : u32 }`, position a `u64`, keys 32-byte scalars): there
+the totalisations of the model are invisible — the 4-byte / 32-byte little-endian strings and the varint that enter the two
+hashes decode back to the very numbers (nothing is truncated), and `Index::is_zero` tests the same numbers that are hashed. -/
+theorem C09_recover_value_bounded (L : Lawful ops) (v s : ℕ) (R : P) (n i j : ℕ)
+    (hi : i < 2 ^ 32) (hj : j < 2 ^ 32) (hn : n < 2 ^ 64) (hv : v < 2 ^ 256) :
+    recoverKey ops v s R n i j
+      = (Spec.Sender.derivationScalar (specPrims ops) (8 • (v • R)) n
+          + (if i = 0 ∧ j = 0 then s else Spec.Sender.subSpendSec (specPrims ops) v s i j)) % ops.l ∧
+    leNat (le32 i) = i ∧ leNat (le32 j) = j ∧ leNat (scalarBytes v) = v ∧
+    varint (encVarint n) = some (n, []) ∧
+    (idxZero i j = true ↔ le32 i = le32 0 ∧ le32 j = le32 0) := by
+  have e4 : (2 : ℕ) ^ 32 = 256 ^ 4 := by decide
+  have e32 : (2 : ℕ) ^ 256 = 256 ^ 32 := by decide
+  refine ⟨C09_recover_value L v s R n i j, Ed.leNat_toBytesLE 4 i (e4 ▸ hi), Ed.leNat_toBytesLE 4 j (e4 ▸ hj),
+    Ed.leNat_toBytesLE 32 v (e32 ▸ hv), ?_, ?_⟩
+  · have := complete_varint n hn []; rwa [List.append_nil] at this
+  · rw [Lawful.idxZero_iff]
+    constructor
+    · rintro ⟨rfl, rfl⟩; exact ⟨rfl, rfl⟩
+    · rintro ⟨h1, h2⟩
+      exact ⟨le32_injective hi (by decide) h1, le32_injective hj (by decide) h2⟩
+
 /-! ### Ed25519 itself: `Lawful` is a theorem, not an assumption
 
 `Proofs/EdwardsGroup.lean` proves that the affine twisted Edwards curve −x² + y² = 1 + d·x²·y² over GF(2^255 − 19) with the
@@ -83,5 +162,41 @@ theorem C09_recover_value_ed25519 : type_of% (@C09_recover_value EdPoint _ edOps
 theorem C09_recover_matches_scan_ed25519 : type_of% (@C09_recover_matches_scan EdPoint _ edOps edOps_lawful) :=
   C09_recover_matches_scan edOps_lawful
 theorem C09_recover_pub_ed25519 : type_of% (@C09_recover_pub EdPoint _ edOps edOps_lawful) := C09_recover_pub edOps_lawful
+theorem C09_recover_pub_primary_ed25519 : type_of% (@C09_recover_pub_primary EdPoint _ edOps edOps_lawful) :=
+  C09_recover_pub_primary edOps_lawful
+theorem C09_recover_pub_subaddress_ed25519 : type_of% (@C09_recover_pub_subaddress EdPoint _ edOps edOps_lawful) :=
+  C09_recover_pub_subaddress edOps_lawful
+theorem C09_recover_reduced_ed25519 : type_of% (@C09_recover_reduced EdPoint _ edOps edOps_lawful) :=
+  C09_recover_reduced edOps_lawful
+/-- clause (a) on Ed25519: no hypothesis about the group is left -/
+theorem C09_owned_recover_ed25519 : type_of% (@C09_owned_recover EdPoint _ edOps edOps_lawful) :=
+  C09_owned_recover edOps_lawful
+theorem C09_owned_recover_all_apis_ed25519 : type_of% (@C09_owned_recover_all_apis EdPoint _ edOps edOps_lawful) :=
+  C09_owned_recover_all_apis edOps_lawful
+/-- **the driver's scalars are the theorems' scalars**: on a valid representative `B` of the transaction key and a 32-byte
+view secret, the executable instance `Drv.refOps` (model side of `c09_recover`, `c09_recover_seq`, `c09_scan_tx`,
+`c09_scenario`) computes the very number `recoverKey edOps …` the `_ed25519` theorems speak about; and the formula inlined in
+the scenario driver (`Drv.C07.Scen.showRecover`: `Drv.decodeKey w.txKey`, then `recoverKey` on the owned output's own position
+and index) is the model `Owned.recoverKey` of `OwnedTxOut::recover_key` -/
+theorem C09_driver_refines (v s : ℕ) (hv : v < 2 ^ 260) (B : Ed.Pt) (hB : Valid B) (n i j : ℕ) (w : Owned) :
+    recoverKey Drv.refOps v s B n i j = recoverKey edOps v s (toPoint B hB) n i j ∧
+    Owned.recoverKey Drv.refOps w v s
+      = (Drv.decodeKey w.txKey).map fun R => recoverKey Drv.refOps v s R w.index w.sub.1 w.sub.2 := by
+  refine ⟨refines_recoverKey refOps_refines_edOps v s hv B hB n i j, ?_⟩
+  unfold Owned.recoverKey
+  rw [refOps_dec]
+  cases Drv.decodeKey w.txKey <;> rfl
+
+/-- on Ed25519 every reduced scalar is a 32-byte number: `v < l` suffices for `C09_recover_value_bounded` -/
+theorem C09_recover_value_bounded_ed25519 (v s : ℕ) (R : EdPoint) (n i j : ℕ)
+    (hi : i < 2 ^ 32) (hj : j < 2 ^ 32) (hn : n < 2 ^ 64) (hv : v < edOps.l) :
+    recoverKey edOps v s R n i j
+      = (Spec.Sender.derivationScalar (specPrims edOps) (8 • (v • R)) n
+          + (if i = 0 ∧ j = 0 then s else Spec.Sender.subSpendSec (specPrims edOps) v s i j)) % edOps.l ∧
+    leNat (le32 i) = i ∧ leNat (le32 j) = j ∧ leNat (scalarBytes v) = v ∧
+    varint (encVarint n) = some (n, []) ∧
+    (idxZero i j = true ↔ le32 i = le32 0 ∧ le32 j = le32 0) :=
+  C09_recover_value_bounded edOps_lawful v s R n i j hi hj hn
+    (Nat.lt_trans hv (by rw [edOps_l]; decide))
 end Ed25519
 end C09
